@@ -76,6 +76,10 @@ type Result struct {
 	// PreTaxTotal is sum - discounts + charges before any tax is removed or added (working precision)
 	PreTaxTotal Dec
 	Prices      []Dec // presented item price per line (after conversion / breakdown); Units nil when the line has no price
+	// Derived holds, for lines priced through a breakdown, the sum of the
+	// sub-line totals at working precision before it is presented as the
+	// line's item price (Units nil otherwise)
+	Derived []Dec
 }
 
 type calc struct {
@@ -463,6 +467,7 @@ func Calculate(p docgen.Plan, env Env, rows Rows) (*Result, error) {
 	var trows []taxRow
 	lines := make([]lineOut, len(p.Lines))
 	res.Prices = make([]Dec, len(p.Lines))
+	res.Derived = make([]Dec, len(p.Lines))
 	for i, l := range p.Lines {
 		prefix := fmt.Sprintf("lines[%d]", i)
 		var subs, brk []subOut
@@ -493,6 +498,7 @@ func Calculate(p docgen.Plan, env Env, rows Rows) (*Result, error) {
 				}
 			}
 			if hasPrice {
+				res.Derived[i] = np.D
 				sl.Price = c.rescale(np.D, maxExp).String()
 				sl.ItemCurrency = ""
 				sl.AltPrices = nil
